@@ -582,26 +582,40 @@ impl FunctionCompiler<'_> {
             hir::Stmt::Assign(assign) => {
                 let assign_body = &self.world_bodies[self.loc.file()][assign];
 
-                let Some(dest) = self.compile_expr_with_args(assign_body.dest, true) else {
+                let Some(dest_addr) = self.compile_expr_with_args(assign_body.dest, true) else {
                     return;
                 };
-                let dest = MemoryLoc::from_addr(dest, 0);
+                let dest = MemoryLoc::from_addr(dest_addr, 0);
 
                 let dest_ty = &self.tys[self.loc][assign_body.dest];
 
                 if let Some(op) = assign_body.quick_assign_op {
-                    let res = self.compile_binary(assign_body.dest, assign_body.value, op);
+                    assert!(!dest_ty.is_aggregate());
 
-                    // the operation was done in the larger of the two operand types,
+                    // the operation is done in the larger of the two operand types,
                     // which might be wider than the destination
                     let value_ty = &self.tys[self.loc][assign_body.value];
                     let max_ty: Intern<Ty> = dest_ty
                         .max(value_ty)
                         .expect("hir_ty would've caught this")
                         .into();
-                    let res = self.cast(res, max_ty, *dest_ty);
 
-                    assert!(!dest_ty.is_aggregate());
+                    // the destination has already been compiled (into its address), so the old
+                    // value is read from there. compiling the destination a second time would
+                    // run it twice (`arr[next()] += 5`)
+                    let old = self.builder.ins().load(
+                        dest_ty.get_final_ty().into_real_type().unwrap(),
+                        MemFlags::trusted(),
+                        dest_addr,
+                        0,
+                    );
+                    let old = self.cast(Some(old), *dest_ty, max_ty).unwrap();
+                    let value = self
+                        .compile_and_cast(assign_body.value, max_ty)
+                        .expect("hir_ty would've caught this");
+
+                    let res = self.compile_complex_compare(old, value, max_ty, op);
+                    let res = self.cast(Some(res), max_ty, *dest_ty);
 
                     dest.write_all(res, *dest_ty, self.module, &mut self.builder);
                 } else {
